@@ -331,5 +331,5 @@ def run(ctx):
     ctx.parallel(_enum_worker, [(k, ns, maxn) for k in range(ns)])
     ctx.exhaustive["Treatment/Sum objects for 1..12 levels x every reference/omit"] = {"complete": True}
     ctx.exhaustive[f"permutations of <= {maxn} levels as levels= for C/T/S, with/without intercept, str and int data"] = {"complete": True}
-    per = 150 if quick else 1500
+    per = 400 if quick else 3000
     ctx.parallel(_swap_worker, [(k, per) for k in range(ns)])
